@@ -12,6 +12,8 @@ use crate::util::*;
 pub enum Obj {
     Pw(PacketWindowFilter),
     SsCtx(crate::stream::ss::SsCtx),
+    SsuClient(crate::ssudp::SsuClient),
+    SsuServer(crate::ssudp::SsuServer),
     Stream(crate::stream::Boxed),
 }
 
@@ -100,6 +102,49 @@ impl Interp {
                 let mut src = bytes::Bytes::from(b);
                 match vmaddr::read_address_port(&mut src) {
                     Ok(a) => format!("ok {} rest={}", show_addr(&a), hex(&src)),
+                    Err(_) => "err".into(),
+                }
+            }
+            ["ssu.client", name, ..] => {
+                let (Some(c), Some(p)) = (kv(t, "cipher"), kv(t, "password")) else { return "bad-op".into() };
+                match crate::ssudp::client(&self.rt, c, p) {
+                    Ok(o) => {
+                        self.objs.insert(name.to_string(), Obj::SsuClient(o));
+                        "ok".into()
+                    }
+                    Err(_) => "err".into(),
+                }
+            }
+            ["ssu.server", name, ..] => {
+                let (Some(c), Some(p), Some(u)) = (kv(t, "cipher"), kv(t, "password"), kv(t, "users")) else { return "bad-op".into() };
+                match crate::ssudp::server(c, p, &crate::stream::parse_users(u)) {
+                    Ok(o) => {
+                        self.objs.insert(name.to_string(), Obj::SsuServer(o));
+                        "ok".into()
+                    }
+                    Err(_) => "err".into(),
+                }
+            }
+            ["ssu.cenc", name, ..] => {
+                let (Some(Obj::SsuClient(o)), Some(a), Some(p)) = (self.objs.get_mut(*name), kv(t, "addr").and_then(parse_addr), kv(t, "payload").and_then(unhex)) else { return "bad-op".into() };
+                match o.encode(a, &p) {
+                    Ok(w) => hex(&w),
+                    Err(_) => "err".into(),
+                }
+            }
+            ["ssu.cdec", name, h, ..] => {
+                let (Some(Obj::SsuClient(o)), Some(b)) = (self.objs.get_mut(*name), unhex(h)) else { return "bad-op".into() };
+                o.decode(&b)
+            }
+            ["ssu.sdec", name, h, ..] => {
+                let (Some(Obj::SsuServer(o)), Some(b)) = (self.objs.get(*name), unhex(h)) else { return "bad-op".into() };
+                o.decode(&b)
+            }
+            ["ssu.senc", name, ..] => {
+                let (Some(Obj::SsuServer(o)), Some(a), Some(p)) = (self.objs.get(*name), kv(t, "addr").and_then(parse_addr), kv(t, "payload").and_then(unhex)) else { return "bad-op".into() };
+                let (Some(csid), Some(ssid), Some(pid)) = (kv(t, "csid").and_then(|x| x.parse().ok()), kv(t, "ssid").and_then(|x| x.parse().ok()), kv(t, "pid").and_then(|x| x.parse().ok())) else { return "bad-op".into() };
+                match o.encode(csid, ssid, pid, kv(t, "user"), a, &p) {
+                    Ok(w) => hex(&w),
                     Err(_) => "err".into(),
                 }
             }
